@@ -1,6 +1,8 @@
 package redis
 
 import (
+	"strconv"
+
 	"github.com/gomodule/redigo/redis"
 
 	"github.com/DrmagicE/gmqtt/persistence/unack"
@@ -36,14 +38,27 @@ func getKey(clientID string) string {
 	return unackPrefix + clientID
 }
 func (s *Store) Init(cleanStart bool) error {
+	c := s.pool.Get()
+	defer c.Close()
 	if cleanStart {
-		c := s.pool.Get()
-		defer c.Close()
 		s.unackpublish = make(map[packets.PacketID]struct{})
 		_, err := c.Do("del", getKey(s.clientID))
 		if err != nil {
 			return err
 		}
+		return nil
+	}
+	// retrieve the unacknowledged packet ids from redis, the cache is empty after a restart of the broker
+	ids, err := redis.StringMap(c.Do("hgetall", getKey(s.clientID)))
+	if err != nil {
+		return err
+	}
+	for k := range ids {
+		id, err := strconv.ParseUint(k, 10, 16)
+		if err != nil {
+			continue
+		}
+		s.unackpublish[packets.PacketID(id)] = struct{}{}
 	}
 	return nil
 }
